@@ -75,15 +75,13 @@ theorem phases_idle {S g : Site → Bool} (hS : ∀ s, S s = true → g s = true
     funext k; simp only [phBoot, idle, tryD_idleE hS]
   have h3 : phT1 c (idle S e) = phT1 c e := rfl
   have h4 : phT2 c (idle S e) = phT2 c e := rfl
-  have h5 : phGelObserve g c (idle S e) = phGelObserve g c e := by
-    funext k; simp only [phGelObserve, idle, tryD_idleE hS]
+  have h5 : phGelObserve g c (idle S e) = phGelObserve g c e := rfl
   have h6 : phT3 g c (idle S e) = phT3 g c e := by
     funext k
     simp only [phT3, speakPart_idle hS, yieldCheck_idle]
     simp only [idle, tryD_idleE hS]
   have h7 : phT4 c (idle S e) = phT4 c e := rfl
-  have h8 : phGelTick g c (idle S e) = phGelTick g c e := by
-    funext k; simp only [phGelTick, idle, tryD_idleE hS]
+  have h8 : phGelTick g c (idle S e) = phGelTick g c e := rfl
   have h9 : phGelBlock g c (idle S e) = phGelBlock g c e := rfl
   have h10 : phApply g c (idle S e) = phApply g c e := by
     funext k
@@ -201,8 +199,9 @@ theorem phT2_ok (h : FailsOnlyAt g e) (c : Cfg) (k : Core) : ∃ em, phT2 c e k 
 theorem phGelObserve_ok (h : FailsOnlyAt g e) (c : Cfg) (k : Core) : ∃ em, phGelObserve g c e k = .ok em := by
   unfold phGelObserve cont
   split
-  · obtain ⟨a, ha⟩ := tryD_ok_of (g := g) (s := .gelObserve) (d := (0 : Nat)) h.gelObserve
-    simp only [ha]; exact ⟨_, rfl⟩
+  · cases ho : e.gelObserve with
+    | ok m => exact ⟨_, rfl⟩
+    | error x => simp only [h.gelObserve x ho, if_true]; exact ⟨_, rfl⟩
   · exact ⟨_, rfl⟩
 
 theorem speakPart_ok (h : FailsOnlyAt g e) (c : Cfg) (st : St) (p : Plan) :
@@ -257,8 +256,9 @@ theorem phT4_ok (h : FailsOnlyAt g e) (c : Cfg) (k : Core) : ∃ em, phT4 c e k 
 theorem phGelTick_ok (h : FailsOnlyAt g e) (c : Cfg) (k : Core) : ∃ em, phGelTick g c e k = .ok em := by
   unfold phGelTick cont
   split
-  · obtain ⟨a, ha⟩ := tryD_ok_of (g := g) (s := .gelTick) (d := (0 : Nat)) h.gelTick
-    simp only [ha]; exact ⟨_, rfl⟩
+  · cases ho : e.gelTick with
+    | ok m => exact ⟨_, rfl⟩
+    | error x => simp only [h.gelTick x ho, if_true]; exact ⟨_, rfl⟩
   · exact ⟨_, rfl⟩
 
 theorem snapPart_ok (h : FailsOnlyAt g e) (c : Cfg) : ∃ r, snapPart g c e = .ok r := by
